@@ -7,6 +7,7 @@ import (
 	"strconv"
 	"strings"
 	"sync"
+	"time"
 
 	"github.com/LiskHQ/lisk-engine/pkg/blockchain"
 
@@ -27,11 +28,24 @@ type params struct {
 	N       int // validators
 	Cache   int // MaxBlockCache of the responder node
 	St      int // > 0: finality stalls above that height
+	// Sq: only the REQUESTER's own blocks (above F) are produced by threshold-1 validators: its prevoted
+	// height stays near the fork point while the responder's grows, so a responder chain that is SHORTER
+	// than the requester's can still be the better one (higher maxHeightPrevoted).
+	Sq bool
+	// Rc: recent chains: the slot length is recentBlockTime and the genesis timestamp is chosen such that
+	// the later of the two tips lies in the slot before the current one, so that the finalized block is
+	// NOT older than three rounds of slots (Syncer.shouldSync false) - with the default fixed genesis
+	// timestamp of 2023 every finalized block is ancient and block sync is always available.
+	Rc bool
 }
 
 func (p params) key() string {
-	return fmt.Sprintf("%d/%d/%d/%d/%d/%d", p.P, p.F, p.Q, p.N, p.Cache, p.St)
+	return fmt.Sprintf("%d/%d/%d/%d/%d/%d/%v/%v", p.P, p.F, p.Q, p.N, p.Cache, p.St, p.Sq, p.Rc)
 }
+
+// recentBlockTime is the slot length of the Rc chains: long enough (28 h) for the wall clock not to
+// leave the slot, or the three-round window, during a run.
+const recentBlockTime = 100_000
 
 // facts are the values of a scenario the model needs in the reset line.
 type facts struct{ finQ, mhpQ, mhpP uint32 }
@@ -48,6 +62,7 @@ type chains struct {
 	facts   facts
 	finP    []uint32          // finalized height of the responder chain cut at each height
 	finQ    []uint32          // C04SYNC: finalized height of the requester chain cut at each height
+	gts, bt uint32            // genesis timestamp and slot length of both nodes (bt 0: the default 10 s)
 	tok     map[string]string // real id -> token
 	refs    int
 }
@@ -139,15 +154,15 @@ func mhpAt(prm params, h int) (uint32, error) {
 	return c.pBlocks[h].Header.MaxHeightPrevoted, nil
 }
 
-func nodeConfig(prm params, cacheSize int) node.Config {
-	return node.Config{NumValidators: prm.N, Seed: 19, GenesisTimestamp: genesisTimestamp, MaxBlockCache: cacheSize}
+func (c *chains) nodeConfig(cacheSize int) node.Config {
+	return node.Config{NumValidators: c.prm.N, Seed: 19, GenesisTimestamp: c.gts, BlockTime: c.bt, MaxBlockCache: cacheSize}
 }
 
-// stallMod is the block option modifier of a chain with stalled finality (params.St): above height
-// St the slots of the validators with index >= threshold-1 stay empty.
-func stallMod(n *node.Node, prm params) func(i int, o *node.BlockOpts) {
+// stallMod is the block option modifier of a chain with stalled finality (params.St, params.Sq):
+// above height `from` (> 0) the slots of the validators with index >= threshold-1 stay empty.
+func stallMod(n *node.Node, prm params, from int) func(i int, o *node.BlockOpts) {
 	return func(_ int, o *node.BlockOpts) {
-		if prm.St > 0 && int(n.Height()) >= prm.St {
+		if from > 0 && int(n.Height()) >= from {
 			active := int(node.DefaultThreshold(uint64(prm.N))) - 1
 			for d := 1; d <= prm.N; d++ {
 				if g, err := n.GeneratorAt(d); err == nil && g.Index < active {
@@ -160,12 +175,42 @@ func stallMod(n *node.Node, prm params) func(i int, o *node.BlockOpts) {
 }
 
 func (c *chains) build() {
+	c.gts, c.bt = genesisTimestamp, 0
+	if !c.prm.Rc {
+		c.buildOnce()
+		return
+	}
+	// recent chains: a first construction measures how many slots the chains take (empty slots of a
+	// stalled chain included), the second one starts that many slots before the current slot
+	c.bt = recentBlockTime
+	c.gts = genesisTimestamp - genesisTimestamp%recentBlockTime
+	c.buildOnce()
+	if c.err != nil {
+		return
+	}
+	last := c.pBlocks[len(c.pBlocks)-1].Header.Timestamp
+	if t := c.qBlocks[len(c.qBlocks)-1].Header.Timestamp; t > last {
+		last = t
+	}
+	slots := (last - c.gts) / c.bt
+	c.p.Close()
+	c.p = nil
+	now := uint32(time.Now().Unix())
+	c.gts = now - now%c.bt - (slots+1)*c.bt
+	c.buildOnce()
+}
+
+func (c *chains) buildOnce() {
 	prm := c.prm
-	if prm.F > prm.P || prm.F > prm.Q || prm.F < 0 || prm.N < 1 || (prm.St > 0 && prm.N < 2) {
+	if prm.F > prm.P || prm.F > prm.Q || prm.F < 0 || prm.N < 1 || ((prm.St > 0 || prm.Sq) && prm.N < 2) {
 		c.err = fmt.Errorf("c19: bad params %+v", prm)
 		return
 	}
-	p, err := node.New(nodeConfig(prm, prm.Cache))
+	qFrom := prm.St
+	if prm.Sq {
+		qFrom = 1
+	}
+	p, err := node.New(c.nodeConfig(prm.Cache))
 	if err != nil {
 		c.err = err
 		return
@@ -173,7 +218,7 @@ func (c *chains) build() {
 	finP := []uint32{p.Finalized()}
 	var common []*blockchain.Block
 	for i := 0; i < prm.F; i++ {
-		bs, err := p.Extend(1, stallMod(p, prm))
+		bs, err := p.Extend(1, stallMod(p, prm, prm.St))
 		if err != nil {
 			c.err = fmt.Errorf("extend common: %w", err)
 			return
@@ -183,7 +228,7 @@ func (c *chains) build() {
 	}
 	// the requester chain is built by a twin node; its first own block carries an extra event so
 	// that it differs from the responder's block of that height
-	q, err := node.New(nodeConfig(prm, 0))
+	q, err := node.New(c.nodeConfig(0))
 	if err != nil {
 		c.err = err
 		return
@@ -197,7 +242,7 @@ func (c *chains) build() {
 	}
 	var pOwn []*blockchain.Block
 	for i := 0; i < prm.P-prm.F; i++ {
-		bs, err := p.Extend(1, stallMod(p, prm))
+		bs, err := p.Extend(1, stallMod(p, prm, prm.St))
 		if err != nil {
 			c.err = fmt.Errorf("extend responder: %w", err)
 			return
@@ -211,7 +256,7 @@ func (c *chains) build() {
 	var qOwn []*blockchain.Block
 	for i := 0; i < prm.Q-prm.F; i++ {
 		first := i == 0
-		qStall := stallMod(q, prm)
+		qStall := stallMod(q, prm, qFrom)
 		bs, err := q.Extend(1, func(k int, o *node.BlockOpts) {
 			qStall(k, o)
 			if first {
@@ -247,7 +292,7 @@ func (c *chains) build() {
 
 // newRequester replays the requester chain on a fresh node (default block cache).
 func (c *chains) newRequester() (*node.Node, error) {
-	q, err := node.New(nodeConfig(c.prm, 0))
+	q, err := node.New(c.nodeConfig(0))
 	if err != nil {
 		return nil, err
 	}
@@ -334,6 +379,12 @@ func resetLine(prm params, f facts) string {
 	s := fmt.Sprintf("reset P=%d F=%d Q=%d n=%d cache=%d finQ=%d mhpQ=%d mhpP=%d", prm.P, prm.F, prm.Q, prm.N, prm.Cache, f.finQ, f.mhpQ, f.mhpP)
 	if prm.St > 0 {
 		s += fmt.Sprintf(" st=%d", prm.St)
+	}
+	if prm.Sq {
+		s += " sq=1"
+	}
+	if prm.Rc {
+		s += " rc=1"
 	}
 	return s
 }
